@@ -19,10 +19,17 @@ TRUSTED_BASE = [
     'cyarray arrays) is modelled for the serial path (Model/NbrCacheHist.lean) and tied on every run to the real '
     'cache objects of every NNPS class over population-changing histories (lists handed out vs the search\'s own '
     'lists); the cell-mask geometry (Lemmas/NbrMask.lean) is proved, not tied (mask widths are C locals)',
+    'periodic images (CPUDomainManager._compute_cell_size_for_binning / _create_ghosts_periodic) are modelled '
+    '(Model/PeriodicGhosts.lean, run at Float) and tied bit for bit on every run to the images the real DomainManager '
+    'appends to every array (which real particle, where), over 1-3 periodic axes, n_layers 1/1.5/2/3, 1-3 arrays with '
+    'h ratios 1..8 and histories on the same manager; box-wrapping and the removal of the old images are exercised, not modelled',
     'compyle/Cython/g++ code generation of the loop bodies is exercised, not modelled (harness part C; C02)',
 ]
 ASSUMPTIONS = [
-    'closed system: every destination array lists every array as a source, all particles real, no domain manager',
+    'closed system: every destination array lists every array as a source; all particles real, or a periodic box '
+    '(DomainManager periodic in 1-3 axes) whose images belong to the system: the sums run over the real particles, '
+    'no angular momentum on a torus; the search radius radius_scale*hmax does not exceed the period (one image per '
+    'side is all a DomainManager makes); mirror domains are not closed (C07)',
     'body forces off (gx = gy = gz = 0); the same equation parameters for every destination array',
     'masses non-zero for the number-density forms that divide by the destination mass',
     'solid mechanics: the array constants wdeltap and n agree between mutually interacting arrays',
@@ -37,7 +44,8 @@ READY = True
 DESIGN_REF = '6/C09'
 TECHNIQUE = ('Lean 4 proof over a model regenerated from the equation sources on every run + bit-exact translator '
              'validation + neighbour-cache history model tied to the real cache objects + conservation oracle on the '
-             'real compiled AccelerationEval over NNPS classes x options x cache x population histories')
+             'real compiled AccelerationEval over NNPS classes x options x cache x population histories x periodic '
+             'domains with arrays of very different resolution + periodic-image model tied to the real DomainManager')
 LEVEL_TEXT = ("Lean 4 theorems, for every linearly ordered field, every kernel of radial shape, every parameter "
               "value, every finite particle set and every symmetric duplicate-free neighbour relation: "
               "sum_pair_antisym_eq_zero, torque_zero_of_central, dwij_antisym, dwi_dwj_swap, and per equation "
@@ -47,13 +55,18 @@ LEVEL_TEXT = ("Lean 4 theorems, for every linearly ordered field, every kernel o
               "cache_history_serves_search (any history of population sizes / searches / queries on one NeighborCache, "
               "any content of fresh memory), cache_lists_symmetric, linear_momentum_WC_MomentumEquation_through_cache, "
               "cache_keeping_flags_goes_stale (counterexample), cell_mask_covers_criterion, "
-              "strat_hash_mask_reaches_both_ways, strat_hash_mask_needs_H (counterexample).  The model (loop bodies and precomputed symbols) is "
+              "strat_hash_mask_reaches_both_ways, strat_hash_mask_needs_H (counterexample); for a periodic box: "
+              "periodic_pair_seen_equally (with the common image depth n_layers*radius_scale*hmax, n_layers >= 1, i has j "
+              "or an image of j as neighbour exactly as often as j has i or an image of i, for any two arrays), "
+              "periodic_image_reaction_exists, own_h_image_depth_loses_reaction (counterexample: a depth sized from the "
+              "array's own h).  The model (loop bodies and precomputed symbols) is "
               "re-emitted from /repo's source by a Python-ast translator on every run, so a code change changes the "
               "Lean text the fixed proofs are checked against; the translator is validated bit for bit against the "
               "Python bodies, and the property's own predicate (|sum m a| <= 1e-12 sum m|a|, angular analogue, "
               "rho > 0) is evaluated on the real compiled code over random closed systems - every NNPS class, every "
-              "value of its options, cache on and off, and after every round of remove/add/move histories on the "
-              "same objects - to produce replays.")
+              "value of its options, cache on and off, after every round of remove/add/move histories on the "
+              "same objects, and in periodic boxes (1-3 periodic axes, n_layers 1..3) with 2-3 arrays whose h differ "
+              "by a ratio up to 8, where also the symmetry of the real+image neighbour relation is judged - to produce replays.")
 LEVEL_NOTE = ("Trusted: Lean kernel and the three standard axioms; the translator (validated per run, ~3000 bit-exact "
               "comparisons quick); exact-field arithmetic in place of IEEE doubles; radial kernel shape and symmetric "
               "neighbour lists as hypotheses (checked on the real classes / exercised by the system-level oracle); "
